@@ -4,7 +4,8 @@ evaluators agree; padding atoms get exactly zero force.
 Explorer: exhaustive finite lattices (S-lat) of executions of the real single-point driver.
 
   element lattice   method x {every hydride, every heavy-element pair H_nX-YH_m at 1..3 bond scales, named
-                    multi-heavy molecules} x orientation {documentation layout, generic} x force evaluator
+                    multi-heavy molecules, the repository's own test geometry} x orientation {documentation
+                    layout, generic} x force evaluator
   config lattice    method x sub-alphabet of molecules (RHF neutral / RHF ion / UHF doublet / UHF triplet) x
                     SCF converger x SP2 x active state {S0, CIS S1, CIS S2, RPA S1} x batch layout
                     {single, homogeneous batch, zero-padded mixed batch} x orientation x force evaluator
@@ -12,6 +13,13 @@ Explorer: exhaustive finite lattices (S-lat) of executions of the real single-po
 Oracle on every point: every Cartesian component of the returned force equals minus a 4-point central
 difference (h = 2e-3 A, all 12N displaced geometries through the package as ONE homogeneous batch) of the
 returned Etot; the evaluators agree pairwise; force rows of padding atoms are exactly 0.0.
+
+A disagreement is confirmed with single-molecule calls before it is reported, and two attribution probes add
+derived facts to the violation descriptor (so that known findings can be matched narrowly):
+  * geometries with an axis-aligned atom pair are re-executed 0.02 rad off the axis (vanishes_when_tilted);
+  * for the analytical evaluator on molecules that contain an element whose h_pp is below MOPAC's 0.1 eV floor,
+    the evaluator is re-run with a harness-side wrapper that applies the floor inside `w_der` as the energy
+    integrals do (vanishes_with_hpp_floor_in_derivative).
 """
 import numpy as np
 
@@ -28,16 +36,21 @@ RULE = (
     "multi-heavy molecules) x orientation {documentation layout, generic} x force evaluator, and on a molecule "
     "sub-alphabet the full product SCF converger x SP2 x spin/charge x active state x batch layout; one case = one "
     "(molecule, orientation, method, configuration, evaluator) execution compared with a batched 4-point finite "
-    "difference of the returned energy; non-trivial when a force was returned and compared; distinct = distinct tuple"
+    "difference of the returned energy (plus one case per evaluator pair); non-trivial when a force was returned and "
+    "compared; distinct = distinct tuple"
 )
 ASSUMPTIONS = [
     "geometries are those of the stated finite alphabet (no continuous sampling); CPU, float64",
     "finite-difference reference: 4-point central stencil, h = 2e-3 A (truncation h^4 E^(5)/30 ~ 1e-9 eV/A), scf_eps 1e-10, "
     "CIS tolerance 1e-8; the stencil is evaluated as one homogeneous batch and a disagreement is confirmed with "
     "single-molecule calls before it is reported",
+    "points where the energies of the stencil do not lie on one smooth surface (SCF landing on different solutions at "
+    "the base and the displaced geometries, recognised from the stencil's own second differences) are excluded and "
+    "counted, unless the roughness belongs to an axis-aligned atom pair (then it is reported)",
     "SP2 points: the density carries the SP2 purification error, tolerance 1e-5 + 5000 x sp2_tol (K_F of DESIGN C04)",
     "excited states with autodiff/semi-numerical requested: the package itself switches to its analytical "
-    "excited-state gradient (scf_backward = 0); the descriptor records the effective evaluator",
+    "excited-state gradient (scf_backward = 0); the descriptor records the effective evaluator; excited-state forces "
+    "by back-propagation (scf_backward >= 1) are not explored",
 ]
 
 METHODS = ["MNDO", "AM1", "PM3", "PM6_SP"]
@@ -49,15 +62,15 @@ SP2_TOL = 1e-7
 ATOL = 1e-5
 RTOL = 1e-6
 K_SP2 = 5000.0
-ROUGH_MAX = 5e-3  # |D(h) - D(2h)| eV/A: above this the energy is not smooth over the stencil -> excluded
-CURV_MAX = 1e-6  # |S(h) - S(2h)/4| eV: base point and neighbours not on one smooth surface (SCF solution switch) -> excluded
+ROUGH_MAX = 5e-3  # |D(h) - D(2h)| eV/A: above this the energy is not smooth over the stencil
+CURV_MAX = 1e-6  # |S(h) - S(2h)/4| eV: base point and neighbours are not on one smooth surface
 NAMED_MULTI = ["H2CO", "CH3Cl", "CH3F", "SO2", "HCN", "CO", "N2", "C2H2", "CH3OH"]
 
 # ------------------------------------------------------------------ one unit = (molecule, method, configuration)
 
 
-def _cfg_default():
-    return dict(solver="adaptive", sp2=False, excited=None, layout="single")
+def _cfg(unit):
+    return dict(dict(solver="adaptive", sp2=False, excited=None, layout="single"), **unit.get("cfg", {}))
 
 
 def _params(method, cfg, uhf, mode):
@@ -91,31 +104,44 @@ def _tol(cfg, fmax):
     return t
 
 
+def _smooth(fd, cfg):
+    cmax = CURV_MAX * (100.0 if cfg["sp2"] else 1.0)
+    return float(fd["rough"].max()) <= ROUGH_MAX and float(fd["curv"].max()) <= cmax
+
+
 def _call(fn, sp2):
     """run a package call; SP2 calls run under the deterministic iteration horizon (the SP2 loop has no cap)."""
     if sp2:
-        from ..budget import Horizon
-
-        with Horizon(3000):
+        with L.SP2Horizon(2000):
             return fn()
     return fn()
 
 
 def run_unit(unit):
-    """Executes one unit: the three evaluators in the requested layout + one batched stencil.
-    Returns a plain dict; never raises for package errors."""
+    """Executes one unit: the requested evaluators in the requested layout + one batched stencil (+ confirmation
+    and attribution probes when something disagrees).  Returns a plain dict; never raises for package errors."""
+    import time
+
+    t0 = time.process_time()
+    out = _run_unit(unit)
+    out["cpu"] = time.process_time() - t0
+    return out
+
+
+def _run_unit(unit):
     from ..budget import IterationHorizon
 
     seed = unit.get("seed", 0)
-    method, cfg = unit["method"], dict(_cfg_default(), **unit.get("cfg", {}))
+    method, cfg = unit["method"], _cfg(unit)
     mol = L.build(unit["spec"], seed)
-    uhf = mol["mult"] != 1 or bool(cfg.get("uhf"))
+    uhf = mol["mult"] != 1
     n = len(mol["species"])
     act = cfg["excited"][1] if cfg["excited"] else None
     mols, row, pad = _layout_mols(mol, cfg["layout"], seed)
     expect_rej = L.expected_rejection(method, mols, uhf, cfg["solver"], cfg["sp2"], cfg["excited"], cfg["layout"] == "mixed")
     out = {"modes": {}, "expected_rejection": expect_rej, "natoms": n, "uhf": uhf}
     modes = unit.get("modes", MODES)
+    sp_arr = M.batch(mols, pad_extra=pad)[0]
     for mode in modes:
         p = _params(method, cfg, uhf, mode)
         try:
@@ -126,10 +152,9 @@ def run_unit(unit):
         except Exception as e:  # noqa: BLE001 - the package refused (or crashed): classified by the parent
             out["modes"][mode] = {"status": "raised", "msg": f"{type(e).__name__}: {str(e).strip()[:160]}"}
             continue
-        sp_arr, _, _, _ = M.batch(mols, pad_extra=pad)
         F = r["force"]
         padrows = F[sp_arr == 0]
-        d = {
+        out["modes"][mode] = {
             "status": "ok",
             "force": F[row, :n].copy(),
             "Etot": float(r["Etot"][row]),
@@ -139,7 +164,6 @@ def run_unit(unit):
             "finite": L.finite(F) and L.finite(r["Etot"]),
             "cis": None if r.get("cis_energies") is None else r["cis_energies"][row].tolist(),
         }
-        out["modes"][mode] = d
     ok = [m for m in modes if out["modes"][m]["status"] == "ok"]
     if not ok:
         return out
@@ -155,11 +179,13 @@ def run_unit(unit):
         return out
     fd["status"] = "ok"
     fd["nc_any"] = bool(np.any(fd.pop("notconverged")))
+    fd["smooth"] = _smooth(fd, cfg)
     out["fd"] = fd
     fmax = float(np.abs(fd["F"]).max())
     tol = _tol(cfg, fmax)
     out["tol"] = tol
     out["fmax"] = fmax
+    clamp = method in METHODS and bool(T.clamp_elements(method, mol["species"]))
     for m in ok:
         d = out["modes"][m]
         diff = np.abs(d["force"] - fd["F"])
@@ -167,30 +193,28 @@ def run_unit(unit):
         d["err_fd"] = float(diff.max())
         d["worst"] = (int(a), int(c))
         d["dE"] = abs(d["Etot"] - fd["E0"])
+        if d["err_fd"] <= tol:
+            continue
         # confirmation with singles before anything is called a violation (DESIGN section 9)
-        if d["err_fd"] > tol and _smooth(fd, cfg) and not unit.get("no_confirm"):
+        if fd["smooth"] and not unit.get("no_confirm"):
             try:
                 f1 = _call(lambda: L.fd_component_singles(mol, p0, H, int(a), int(c), active_state=act), cfg["sp2"])
                 d["confirm_err"] = abs(float(d["force"][a, c]) - f1)
             except Exception as e:  # noqa: BLE001
                 d["confirm_err"] = None
                 d["confirm_msg"] = str(e)[:100]
-            # attribution probe: does the disagreement of the analytical evaluator disappear when its integral
-            # derivatives use the same 0.1 eV floor on h_pp as the energy integrals (harness-side wrapper)?
-            effective = "analytical" if cfg["excited"] else m
-            if effective == "analytical" and method in METHODS and T.clamp_elements(method, mol["species"]):
-                try:
-                    with L.hpp_floor_in_w_der():
-                        r = sp.single_point(mols, _params(method, cfg, uhf, m), pad_extra=pad, active_state=act)
-                    d["err_fd_with_floor"] = float(np.abs(r["force"][row, :n] - fd["F"]).max())
-                except Exception:  # noqa: BLE001
-                    d["err_fd_with_floor"] = None
+        # attribution probe: does the disagreement of the analytical evaluator disappear when its integral
+        # derivatives use the same 0.1 eV floor on h_pp as the energy integrals (harness-side wrapper)?
+        effective = "analytical" if cfg["excited"] else m
+        if effective == "analytical" and clamp:
+            try:
+                with L.hpp_floor_in_w_der():
+                    r = sp.single_point(mols, _params(method, cfg, uhf, m), pad_extra=pad, active_state=act)
+                d["force_with_floor"] = r["force"][row, :n].copy()
+                d["err_fd_with_floor"] = float(np.abs(d["force_with_floor"] - fd["F"]).max())
+            except Exception:  # noqa: BLE001
+                d["err_fd_with_floor"] = None
     return out
-
-
-def _smooth(fd, cfg):
-    cmax = CURV_MAX * (100.0 if cfg["sp2"] else 1.0)
-    return float(fd["rough"].max()) <= ROUGH_MAX and float(fd["curv"].max()) <= cmax
 
 
 # ------------------------------------------------------------------ descriptors
@@ -200,11 +224,14 @@ def _spin(mol, uhf):
     return ("UHF" if uhf else "RHF") + {1: "", 2: "-doublet", 3: "-triplet"}.get(mol["mult"], f"-m{mol['mult']}")
 
 
+def _excited_tag(cfg):
+    return "S0" if not cfg["excited"] else f"{cfg['excited'][0]}{cfg['excited'][1]}"
+
+
 def describe(unit, kind, mode, evaluator=None, **more):
-    seed = unit.get("seed", 0)
-    cfg = dict(_cfg_default(), **unit.get("cfg", {}))
-    mol = L.build(unit["spec"], seed)
-    uhf = mol["mult"] != 1 or bool(cfg.get("uhf"))
+    cfg = _cfg(unit)
+    mol = L.build(unit["spec"], unit.get("seed", 0))
+    uhf = mol["mult"] != 1
     clamp = T.clamp_elements(unit["method"], mol["species"]) if unit["method"] in METHODS else []
     if evaluator is None:
         evaluator = "analytical" if cfg["excited"] else mode
@@ -213,7 +240,7 @@ def describe(unit, kind, mode, evaluator=None, **more):
         lattice=unit.get("lattice", "element"), mode=mode, evaluator=evaluator,
         involves_analytical=("analytical" in str(evaluator)),
         solver=cfg["solver"], sp2=bool(cfg["sp2"]), spin=_spin(mol, uhf), charge=int(mol["charge"]), mult=int(mol["mult"]),
-        excited="S0" if not cfg["excited"] else f"{cfg['excited'][0]}{cfg['excited'][1]}", layout=cfg["layout"],
+        excited=_excited_tag(cfg), layout=cfg["layout"],
         elements=",".join(str(z) for z in sorted(set(mol["species"]))), natoms=len(mol["species"]),
         hpp_clamp_active=bool(clamp), hpp_clamp_elements=",".join(map(str, clamp)),
     )  # fmt: skip
@@ -223,11 +250,10 @@ def describe(unit, kind, mode, evaluator=None, **more):
 
 
 def unit_key(unit, mode):
-    cfg = dict(_cfg_default(), **unit.get("cfg", {}))
-    ex = "S0" if not cfg["excited"] else f"{cfg['excited'][0]}{cfg['excited'][1]}"
+    cfg = _cfg(unit)
     return (
         f"{unit['method']}|{L.spec_name(unit['spec'])}|{unit['spec'].get('orient', 'generic')}|{cfg['solver']}|"
-        f"sp2={int(bool(cfg['sp2']))}|{ex}|{cfg['layout']}|{mode}"
+        f"sp2={int(bool(cfg['sp2']))}|{_excited_tag(cfg)}|{cfg['layout']}|{mode}"
     )
 
 
@@ -246,6 +272,8 @@ def element_lattice(tier, seed):
         for name in NAMED_MULTI:
             for o in ("doc", "generic"):
                 units.append(dict(lattice="element", method=method, spec={"mol": name, "orient": o}))
+        # the first geometry of the repository's own force tests, as given there
+        units.append(dict(lattice="element", method=method, spec={"mol": "H2CO_repo_test", "orient": "doc"}))
         for i, a in enumerate(heavy):
             for b in heavy[: i + 1]:
                 for s in scales:
@@ -291,21 +319,40 @@ def config_lattice(tier, seed):
 
 
 def _tilted_unit(unit):
-    u = dict(unit, spec=dict(unit["spec"], orient="tilted"), no_confirm=True)
-    return u
+    return dict(unit, spec=dict(unit["spec"], orient="tilted"), no_confirm=True)
+
+
+def _has_axis(unit):
+    return any(L.axis_facts(L.build(unit["spec"], unit.get("seed", 0))).values())
+
+
+def _tilt_facts(tr, mode):
+    """derived facts from the re-execution 0.02 rad off the axis"""
+    if not tr or is_error(tr) or is_timeout(tr):
+        return {}
+    tm = tr.get("modes", {}).get(mode, {})
+    fd = tr.get("fd", {})
+    if tm.get("status") != "ok" or fd.get("status") != "ok" or not fd.get("smooth") or "err_fd" not in tm:
+        return {}
+    out = {"vanishes_when_tilted": bool(tm["err_fd"] <= tr["tol"]), "err_tilted": tm["err_fd"]}
+    if tm.get("err_fd_with_floor") is not None:
+        out["vanishes_when_tilted_with_hpp_floor"] = bool(tm["err_fd_with_floor"] <= tr["tol"])
+    return out
 
 
 def judge(chk, unit, res, stats, tilt_cache):
-    cfg = dict(_cfg_default(), **unit.get("cfg", {}))
+    cfg = _cfg(unit)
     modes = unit.get("modes", MODES)
     if is_timeout(res) or is_error(res):
         chk.case(unit_key(unit, "*"), nontrivial=False, outcome="harness")
         chk.violation(describe(unit, "did_not_complete", "*"), f"{unit_key(unit, '*')}: {res}", replay=unit)
         return
     fd = res.get("fd")
+    tr = tilt_cache.get(unit_key(unit, "*"))
     for mode in modes:
         key = unit_key(unit, mode)
         d = res["modes"][mode]
+        rp = dict(unit, modes=[mode])
         if d["status"] == "raised":
             if res["expected_rejection"]:
                 chk.rejected += 1
@@ -314,7 +361,7 @@ def judge(chk, unit, res, stats, tilt_cache):
                 chk.case(key, nontrivial=True, outcome="raised")
                 chk.violation(
                     describe(unit, "unexpected_exception", mode, exception=d["msg"][:60]),
-                    f"{key}: the package raised on a valid request: {d['msg']}", replay=dict(unit, modes=[mode]),
+                    f"{key}: the package raised on a valid request: {d['msg']}", replay=rp,
                 )  # fmt: skip
             continue
         if d["status"] == "horizon":
@@ -325,16 +372,18 @@ def judge(chk, unit, res, stats, tilt_cache):
         # a force came back
         if not d["finite"]:
             chk.case(key, nontrivial=True, outcome="nonfinite")
-            chk.violation(describe(unit, "nonfinite", mode), f"{key}: non-finite force or energy returned silently", replay=dict(unit, modes=[mode]))
+            chk.violation(describe(unit, "nonfinite", mode), f"{key}: non-finite force or energy returned silently", replay=rp)
             continue
         if d["npad"] and d["pad_absmax"] != 0.0:
             chk.violation(
                 describe(unit, "padding_force_nonzero", mode, err=d["pad_absmax"]),
-                f"{key}: padding atoms carry a force, max |F_pad| = {d['pad_absmax']:.3e}", replay=dict(unit, modes=[mode]),
+                f"{key}: padding atoms carry a force, max |F_pad| = {d['pad_absmax']:.3e}", replay=rp,
             )  # fmt: skip
         if fd is None or fd["status"] != "ok":
             chk.excluded += 1
-            chk.case(key, nontrivial=False, outcome="fd:" + (fd or {}).get("status", "none"))
+            chk.case(key, nontrivial=bool(d["npad"]), outcome="fd:" + (fd or {}).get("status", "none"))
+            if fd and fd["status"] == "horizon":
+                stats["horizon"] += 1
             if fd and fd["status"] == "raised" and not res["expected_rejection"]:
                 chk.violation(
                     describe(unit, "unexpected_exception", "stencil", exception=fd["msg"][:60]),
@@ -355,19 +404,34 @@ def judge(chk, unit, res, stats, tilt_cache):
                 stats["degenerate_state"] += 1
                 chk.case(key, nontrivial=False, outcome="degenerate-active-state")
                 continue
-        if not _smooth(fd, cfg):
-            chk.excluded += 1
-            stats["rough_stencil"] += 1
-            chk.case(key, nontrivial=False, outcome="rough-stencil")
+        err, tol = d["err_fd"], res["tol"]
+        tf = _tilt_facts(tr, mode)
+        if not fd["smooth"]:
+            # energies of the stencil are not on one smooth surface.  If that belongs to an axis-aligned atom pair
+            # (smooth and in agreement 0.02 rad off the axis) it is the package's doing and is reported; otherwise
+            # it is an SCF multi-solution matter outside the statement.
+            if err > tol and tf.get("vanishes_when_tilted"):
+                chk.case(key, nontrivial=True, outcome=f"{mode[:4]}:rough-on-axis")
+                desc = describe(unit, "force_vs_fd", mode, err=err, tol=tol, energy_not_smooth_across_stencil=True,
+                                confirmed_with_singles=False, **tf)  # fmt: skip
+                chk.violation(
+                    desc,
+                    f"{key}: max |F + dE/dx| = {err:.3e} eV/A (tolerance {tol:.1e}) and the energy is not smooth across the "
+                    f"stencil (second differences disagree by {float(fd['curv'].max()):.1e} eV); 0.02 rad off the axis the surface is "
+                    f"smooth and the force agrees to {tf['err_tilted']:.1e}", replay=rp,
+                )  # fmt: skip
+            else:
+                chk.excluded += 1
+                stats["rough_stencil"] += 1
+                chk.case(key, nontrivial=False, outcome="rough-stencil")
             continue
         stats["max_curv"] = max(stats["max_curv"], float(fd["curv"].max()) / (100.0 if cfg["sp2"] else 1.0))
-        err, tol = d["err_fd"], res["tol"]
         chk.case(key, nontrivial=True, outcome=f"{mode[:4]}:{L.fmt_err(err)}")
         if d["dE"] > 1e-6 + (1e-4 if cfg["sp2"] else 0.0):
             chk.violation(
                 describe(unit, "energy_differs_from_stencil_base", mode, err=d["dE"]),
                 f"{key}: Etot of this call differs from Etot of the same geometry in the energy-only batch by {d['dE']:.3e} eV",
-                replay=dict(unit, modes=[mode]),
+                replay=rp,
             )  # fmt: skip
         if err <= tol:
             stats["max_ok"][mode] = max(stats["max_ok"][mode], err / tol)
@@ -380,49 +444,53 @@ def judge(chk, unit, res, stats, tilt_cache):
             chk.excluded += 1
             stats["unconfirmed"].append((key, err, d.get("confirm_err")))
             continue
-        more = dict(err=err, tol=tol, confirmed_with_singles=True, vanishes_when_tilted=None, other_evaluators_ok=None)
+        more = dict(err=err, tol=tol, confirmed_with_singles=True, energy_not_smooth_across_stencil=False)
+        others = [res["modes"][m].get("err_fd") for m in modes if m != mode and res["modes"][m]["status"] == "ok"]
+        more["other_evaluators_ok"] = bool(all(o is not None and o <= tol for o in others)) if others else None
         if "err_fd_with_floor" in d:
             ef = d["err_fd_with_floor"]
             more["vanishes_with_hpp_floor_in_derivative"] = bool(ef is not None and ef <= tol)
-        others = [res["modes"][m].get("err_fd") for m in modes if m != mode and res["modes"][m]["status"] == "ok"]
-        if others:
-            more["other_evaluators_ok"] = bool(all(o is not None and o <= tol for o in others))
+        more.update(tf)
         desc = describe(unit, "force_vs_fd", mode, **more)
-        if desc["has_axis_aligned_pair_x"] or desc["has_axis_aligned_pair_y"] or desc["has_axis_aligned_pair_z"]:
-            tk = unit_key(unit, "*")
-            if tk not in tilt_cache:
-                tilt_cache[tk] = run_unit(_tilted_unit(unit))
-            tr = tilt_cache[tk]
-            if is_error(tr) or is_timeout(tr):
-                tr = {}
-            tm = tr.get("modes", {}).get(mode, {})
-            if tm.get("status") == "ok" and tr.get("fd", {}).get("status") == "ok":
-                desc["vanishes_when_tilted"] = bool(tm["err_fd"] <= tr["tol"])
-                desc["err_tilted"] = tm["err_fd"]
         chk.violation(
             desc,
             f"{key}: max |F + dE/dx| = {err:.3e} eV/A (tolerance {tol:.1e}, |F|max {res['fmax']:.2f}) at atom {d['worst'][0]} "
             f"component {'xyz'[d['worst'][1]]}; singles confirm {d['confirm_err']:.3e}"
-            + (f"; after a 0.02 rad tilt {desc.get('err_tilted', float('nan')):.1e}" if desc.get("vanishes_when_tilted") is not None else ""),
-            replay=dict(unit, modes=[mode]),
+            + (f"; after a 0.02 rad tilt {tf['err_tilted']:.1e}" if "err_tilted" in tf else "")
+            + (f"; with the h_pp floor in w_der {d['err_fd_with_floor']:.1e}" if d.get("err_fd_with_floor") is not None else ""),
+            replay=rp,
         )  # fmt: skip
     # pairwise agreement of the evaluators (same tolerance, but without the SP2 allowance: same density in all three)
     okm = [m for m in modes if res["modes"][m]["status"] == "ok" and res["modes"][m]["finite"] and not res["modes"][m]["notconverged"]]
     for i, a in enumerate(okm):
         for b in okm[i + 1 :]:
-            fa, fb = res["modes"][a]["force"], res["modes"][b]["force"]
-            diff = float(np.abs(fa - fb).max())
-            tolp = ATOL + RTOL * float(np.abs(fa).max())
+            da, db = res["modes"][a], res["modes"][b]
+            diff = float(np.abs(da["force"] - db["force"]).max())
+            tolp = ATOL + RTOL * float(np.abs(da["force"]).max())
             key = unit_key(unit, f"{a}~{b}")
             chk.case(key, nontrivial=True, outcome=f"pair:{L.fmt_err(diff)}")
-            if diff > tolp:
-                ev = f"{a}~{b}" if not cfg["excited"] else "analytical~analytical"
-                chk.violation(
-                    describe(unit, "evaluators_disagree", f"{a}~{b}", evaluator=ev, err=diff, tol=tolp),
-                    f"{key}: evaluators differ by {diff:.3e} eV/A (tolerance {tolp:.1e})", replay=dict(unit, modes=[a, b]),
-                )  # fmt: skip
-            else:
+            if diff <= tolp:
                 stats["max_pair"] = max(stats["max_pair"], diff / tolp)
+                continue
+            ev = f"{a}~{b}" if not cfg["excited"] else "analytical~analytical"
+            more = dict(err=diff, tol=tolp)
+            fa = da.get("force_with_floor", da["force"])
+            fb = db.get("force_with_floor", db["force"])
+            if "force_with_floor" in da or "force_with_floor" in db:
+                more["vanishes_with_hpp_floor_in_derivative"] = bool(float(np.abs(fa - fb).max()) <= tolp)
+            chk.violation(
+                describe(unit, "evaluators_disagree", f"{a}~{b}", evaluator=ev, **more),
+                f"{key}: evaluators differ by {diff:.3e} eV/A (tolerance {tolp:.1e})"
+                + (f"; with the h_pp floor in w_der {float(np.abs(fa - fb).max()):.1e}" if "vanishes_with_hpp_floor_in_derivative" in more else ""),
+                replay=dict(unit, modes=[a, b]),
+            )  # fmt: skip
+
+
+def _cost(u):
+    if "pair" in u["spec"]:
+        a, b, _ = u["spec"]["pair"]
+        return 2 + M.VALENCE[a] + M.VALENCE[b]
+    return len(L.get_named(u["spec"]["mol"])["species"]) + (3 if u.get("cfg", {}).get("excited") else 0)
 
 
 def run(chk, tier, seed):
@@ -434,50 +502,69 @@ def run(chk, tier, seed):
     # determinism: one sample unit twice in two separate processes must agree bitwise
     probe = dict(lattice="element", method="AM1", spec={"mol": "H2CO", "orient": "generic"}, seed=seed)
     r2 = pmap(run_unit, [probe, probe], chunk=1, timeout=600)
-    if is_error(r2[0]) or is_error(r2[1]) or not all(
-        np.array_equal(r2[0]["modes"][m]["force"], r2[1]["modes"][m]["force"]) for m in MODES
-    ) or not np.array_equal(r2[0]["fd"]["F"], r2[1]["fd"]["F"]):
+    same = not (is_error(r2[0]) or is_error(r2[1]) or is_timeout(r2[0]) or is_timeout(r2[1]))
+    same = same and all(np.array_equal(r2[0]["modes"][m]["force"], r2[1]["modes"][m]["force"]) for m in MODES)
+    same = same and np.array_equal(r2[0]["fd"]["F"], r2[1]["fd"]["F"])
+    if not same:
         chk.harness_error("the same case executed in two processes did not give bit-identical observations")
         return
     # big units first so that the tail of the pool is short
     order = sorted(range(len(units)), key=lambda i: -_cost(units[i]))
     results = pmap(run_unit, [units[i] for i in order], chunk=4, timeout=900, progress=f"C01 {tier} lattice")
-    stats = {
-        "horizon": 0, "notconverged": 0, "degenerate_state": 0, "rough_stencil": 0, "unconfirmed": [],
-        "max_ok": {m: 0.0 for m in MODES}, "worst_ok": {m: (0.0, "") for m in MODES}, "max_pair": 0.0, "max_curv": 0.0,
-    }  # fmt: skip
     by_unit = dict(zip(order, results))
-    # units with an axis-aligned atom pair that disagree with the stencil are re-executed 0.02 rad off the axis,
-    # so that the descriptor can say whether the disagreement belongs to the axis-aligned orientation itself
+    # an exception on a request that is not a documented rejection is re-executed once in a process of its own before
+    # it is believed (DESIGN section 9); if it does not come back the observation of the second execution is used
+    again = [
+        i for i, r in by_unit.items()
+        if not (is_error(r) or is_timeout(r)) and not r["expected_rejection"]
+        and (any(d["status"] == "raised" for d in r["modes"].values()) or r.get("fd", {}).get("status") == "raised")
+    ]  # fmt: skip
+    nonrepro = []
+    for i, r in zip(again, pmap(run_unit, [units[i] for i in again], chunk=1, timeout=900)):
+        if is_error(r) or is_timeout(r):
+            continue
+        first = by_unit[i]
+        for m, d in first["modes"].items():
+            if d["status"] == "raised" and r["modes"][m]["status"] != "raised":
+                nonrepro.append(f"{unit_key(units[i], m)}: {d['msg'][:120]}")
+        if first.get("fd", {}).get("status") == "raised" and r.get("fd", {}).get("status") != "raised":
+            nonrepro.append(f"{unit_key(units[i], 'stencil')}: {first['fd']['msg'][:120]}")
+        by_unit[i] = r
+    chk.extra["exceptions_not_reproduced_in_a_fresh_process"] = nonrepro
+    chk.excluded += len(nonrepro)
+    # units with an axis-aligned atom pair that disagree with the stencil (or whose stencil is rough) are re-executed
+    # 0.02 rad off the axis, so that the descriptor can say whether the disagreement belongs to the orientation itself
     need = []
     for i, u in enumerate(units):
         r = by_unit[i]
         if is_error(r) or is_timeout(r) or r.get("fd", {}).get("status") != "ok":
             continue
-        if any(d["status"] == "ok" and d.get("err_fd", 0.0) > r["tol"] for d in r["modes"].values()):
-            if any(L.axis_facts(L.build(u["spec"], seed)).values()):
-                need.append(u)
+        if any(d["status"] == "ok" and d.get("err_fd", 0.0) > r["tol"] for d in r["modes"].values()) and _has_axis(u):
+            need.append(u)
     tilted = pmap(run_unit, [_tilted_unit(u) for u in need], chunk=2, timeout=900, progress="C01 tilted re-runs")
     tilt_cache = {unit_key(u, "*"): t for u, t in zip(need, tilted)}
-    chk.extra["tilted_reruns"] = len(need)
+    stats = {
+        "horizon": 0, "notconverged": 0, "degenerate_state": 0, "rough_stencil": 0, "unconfirmed": [],
+        "max_ok": {m: 0.0 for m in MODES}, "worst_ok": {m: (0.0, "") for m in MODES}, "max_pair": 0.0, "max_curv": 0.0,
+    }  # fmt: skip
     for i, u in enumerate(units):
         judge(chk, u, by_unit[i], stats, tilt_cache)
     chk.extra["units"] = len(units)
+    cpu = {}
+    for i, u in enumerate(units):
+        r = by_unit[i]
+        if not (is_error(r) or is_timeout(r)):
+            cpu[u["lattice"]] = cpu.get(u["lattice"], 0.0) + r.get("cpu", 0.0)
+    chk.extra["cpu_seconds_in_package_calls"] = {k: round(v, 1) for k, v in cpu.items()}
+    chk.extra["tilted_reruns"] = len(need)
     chk.extra["excluded_breakdown"] = {k: stats[k] for k in ("horizon", "notconverged", "degenerate_state", "rough_stencil")}
     chk.extra["excluded_breakdown"]["batched_stencil_not_confirmed_by_singles"] = len(stats["unconfirmed"])
     chk.extra["unconfirmed_examples"] = [f"{k}: batch {e:.2e}, singles {c}" for k, e, c in stats["unconfirmed"][:5]]
     chk.extra["largest_healthy_error_over_tolerance"] = {m: round(v, 4) for m, v in stats["max_ok"].items()}
     chk.extra["largest_healthy_error"] = {m: f"{v[0]:.2e} at {v[1]}" for m, v in stats["worst_ok"].items()}
     chk.extra["largest_healthy_pairwise_over_tolerance"] = round(stats["max_pair"], 4)
-    chk.extra["largest_accepted_curvature_mismatch_over_limit"] = stats["max_curv"] / CURV_MAX
+    chk.extra["largest_accepted_curvature_mismatch_over_limit"] = round(stats["max_curv"] / CURV_MAX, 4)
     chk.extra["tolerance"] = f"{ATOL} eV/A + {RTOL} |F|max (+ {K_SP2} x {SP2_TOL} with SP2); h = {H} A; scf_eps = {EPS}"
-
-
-def _cost(u):
-    if "pair" in u["spec"]:
-        a, b, _ = u["spec"]["pair"]
-        return 2 + M.VALENCE[a] + M.VALENCE[b]
-    return len(L.get_named(u["spec"]["mol"])["species"]) + (3 if u.get("cfg", {}).get("excited") else 0)
 
 
 def replay(payload):
@@ -485,6 +572,8 @@ def replay(payload):
     res = run_unit(unit)
     ok = True
     print("  expected rejection:", res["expected_rejection"])
+    if "fd" in res and res["fd"]["status"] == "ok":
+        print(f"  stencil: smooth={res['fd']['smooth']} roughness {res['fd']['rough'].max():.2e} curvature mismatch {res['fd']['curv'].max():.2e}")
     for m, d in res["modes"].items():
         if d["status"] != "ok":
             print(f"  {m}: {d['status']} {d.get('msg', '')}")
@@ -493,6 +582,8 @@ def replay(payload):
         line = f"  {m}: Etot {d['Etot']:.10f} pad|F|max {d['pad_absmax']:.1e}"
         if "err_fd" in d:
             line += f" max|F+dE/dx| {d['err_fd']:.3e} (tol {res['tol']:.1e}) worst atom/comp {d['worst']} singles-confirm {d.get('confirm_err')}"
+            if d.get("err_fd_with_floor") is not None:
+                line += f" with-hpp-floor {d['err_fd_with_floor']:.3e}"
             ok = ok and d["err_fd"] <= res["tol"]
         ok = ok and d["pad_absmax"] == 0.0 and d["finite"]
         print(line)
